@@ -89,6 +89,10 @@ def spec_valid(spec):
             return False
         if kind == "sqlalchemy" and name.startswith("_"):
             return False
+        if kind == "sqlalchemy" and (req != "req" or tkey not in ("int", "str", "bool")):
+            # SQLAlchemy column defaults are applied at flush time (the constructed object holds None) and a nullable column is
+            # optional by construction: only required, non-nullable scalar columns are comparable with the other kinds
+            return False
         if kind == "pydantic" and name.startswith("_"):
             return False
         if kind in ("kwinit", "plaininit") and req == "df":
